@@ -23,7 +23,7 @@ Reset ==
   /\ cstate' = "disc" /\ conn' = 0 /\ connGen' = 0 /\ nextConn' = 1
   /\ up' = TRUE /\ gen' = 1 /\ reading' = TRUE /\ inflight' = <<>> /\ recvP' = 0 /\ recvB' = 0 /\ lostP' = 0 /\ lostB' = 0
   /\ mayTorn' = {}
-  /\ sockP' = 0 /\ sockB' = 0 /\ acc' = ZeroT /\ skipped' = ZeroT /\ devGate' = FALSE
+  /\ sockP' = 0 /\ sockB' = 0 /\ attP' = 0 /\ attB' = 0 /\ acc' = ZeroT /\ skipped' = ZeroT /\ devGate' = FALSE
   /\ rounds' = 0 /\ nops' = 0 /\ restarts' = 0 /\ stalls' = 0
   /\ debt' = 0
 
